@@ -16,6 +16,7 @@ Definition run_line (l : bytes) : bytes :=
       else if beq kind (s2b "descrd") then run_descrd args
       else if beq kind (s2b "nqenc") then run_nqenc args
       else if beq kind (s2b "nqdec") then run_nqdec args
+      else if beq kind (s2b "runes") then run_runes args
       else if beq kind (s2b "res") then run_res args
       else if beq kind (s2b "p5") then run_p5 args
       else if beq kind (s2b "rds") then run_rds args
